@@ -2,6 +2,7 @@ package variable
 
 import (
 	"fmt"
+	"math"
 	"strconv"
 )
 
@@ -38,6 +39,10 @@ func (v *Value) ToString() string {
 	switch {
 	case v.Number != nil:
 		n := *v.Number
+		if (n >= 1<<63 || n < -(1<<63)) && !math.IsInf(n, 0) {
+			// integral, but beyond the range of int (where the conversion below is not defined): digits only
+			return strconv.FormatFloat(n, 'f', -1, 64)
+		}
 		if n == float64(int(n)) {
 			return strconv.Itoa(int(n))
 		}
